@@ -38,6 +38,7 @@ def _case(draw):
     if kind == 'clouds':
         c['where'] = draw(st.sampled_from(['inside', 'inside', 'on-layer', 'above-top', 'below-bottom']))
         c['frac'] = draw(st.floats(0.02, 0.98))
+        c['move'] = draw(st.floats(2.0, 1000.0))
     else:
         c['top'] = draw(_bound())
         c['bottom'] = draw(_bound())
@@ -140,6 +141,25 @@ def check(case):
         if np.any(depth < want * (1 - 1e-9)):
             out.fail('cloud-depth@' + where, 'depth %s below the integral with the cloudy layers opaque %s' % (depth[:3], want[:3]))
         out.nontrivial = bool(where in ('inside', 'on-layer') and 0 < inside.sum() < nl)
+        # history: the same contribution object after its cloud top has been moved (deeper, then
+        # higher) must behave like a fresh one declared at the new pressure
+        out.applies('cloud-moved')
+        try:
+            for fct in (case.get('move', 30.0), 1.0 / case.get('move', 30.0) ** 2):
+                contrib.cloudsPressure = contrib.cloudsPressure * fct
+                pnow = contrib.cloudsPressure
+                with np.errstate(all='ignore'):
+                    rm = cut(out, 'model@clouds-moved', m.model)
+                ins = Pl >= pnow
+                tm = np.asarray(rm[2], dtype=float)
+                sg = np.asarray(contrib.sigma_xsec, dtype=float)
+                if not np.all(np.isposinf(sg[ins])) or not np.all(sg[~ins] == 0.0) or \
+                        not np.all(tm[ins] == 0.0) or not np.array_equal(tm[~ins], t0[~ins]):
+                    out.fail('cloud-moved@%s' % ('deeper' if fct > 1 else 'higher'),
+                             'after moving the cloud top to %r Pa the opaque layers are not exactly those at or below it' % pnow)
+                    break
+        except CutError:
+            pass
         return out
 
     # ---- hazes ----------------------------------------------------------------------------------
